@@ -4,7 +4,7 @@
 P=$1; W=$2; O=$3
 run_demo() {
   g++ -std=gnu++17 -O1 -DNDEBUG -w $EXTRA -I$W/include -I$W/include/nfl -I$W/include/nfl/prng $O/demo.cpp \
-    $W/lib/params/params.cpp $W/lib/prng/fastrandombytes.cpp $W/lib/prng/randombytes.cpp \
+    $W/lib/params/params.cpp $W/lib/prng/fastrandombytes.cpp $( [ -z "$NORB" ] && echo $W/lib/prng/randombytes.cpp ) \
     $W/lib/prng/nfl_crypto_stream_salsa20_amd64_xmm6.s -lgmpxx -lgmp -lmpfr -lpthread -o $O/demo_bin 2>$O/demo_build.log || { echo "demo build failed"; tail -3 $O/demo_build.log; return 99; }
   $O/demo_bin > $O/demo_out.txt 2>&1; rc=$?; tail -2 $O/demo_out.txt; return $rc
 }
